@@ -737,7 +737,7 @@ func (e *Exec) useLemma(st *State, name string) {
 	key := e.pkgShort + "." + name
 	ct := e.prog.Contracts[key]
 	fi := e.prog.Funcs[key]
-	if ct == nil || fi == nil {
+	if ct == nil || (fi == nil && !ct.Pure) {
 		key = "roaring." + name
 		ct, fi = e.prog.Contracts[key], e.prog.Funcs[key]
 	}
